@@ -412,6 +412,11 @@ func (req *Request) write(w io.Writer, usingProxy bool, extraHeaders Header) err
 	if strings.ContainsAny(host, "\r\n") {
 		return &badStringError{"http: CR or LF in outgoing Host", host}
 	}
+	for k := range req.Header {
+		if !validToken(k) {
+			return &badStringError{"http: invalid header field name in outgoing request", k}
+		}
+	}
 	// TODO(bradfitz): escape at least newlines in ruri?
 
 	// Wrap the writer in a bufio Writer if it's not already buffered.
